@@ -54,6 +54,13 @@ def observe(cls_name, cfg, chk, mirror):
         log["individ"].append((len(rec.snaps), str(s), str(c), str(m)))
         return orig_ind(s, c, m)
     opt._adapt, opt._choice_operators, opt._get_new_individ_g = adapt, choice, individ
+    # other self-configuring optimizers with OTHER floors / operator counts are constructed before this one runs
+    for cn2 in ("SelfCGA", "PDPGA", "SelfCGP", "PDPGP"):
+        dec = dict(pop_size=8 if cn2.endswith("GA") else 7, iters=2, objective="onemax", seed=1)
+        dec.update(dict(selections=("rank",), crossovers=("one_point",) if cn2.endswith("GA") else ("gp_standard",), mutations=("weak",) if cn2.endswith("GA") else ("gp_weak_point",)))
+        if cn2.startswith("SelfC"):
+            dec.update(selection_threshold_proba=0.2, crossover_threshold_proba=0.15, mutation_threshold_proba=0.1)
+        T.build(cn2, dec, T.Recorder(cn2, dec))
     opt.fit()
     rec.opt = opt
     return rec, log
@@ -146,11 +153,15 @@ def main(tier: str) -> int:
         names = {"selection": sorted(opt._selection_set), "crossover": sorted(opt._crossover_set), "mutation": sorted(opt._mutation_set)}
         st = opt.get_stats()
         gens = len(rec.snaps)
+
+        def thr_of(kind, _cfg=cfg, _pdp=pdp, _names=names):
+            # the floor as CONFIGURED (not as the instance reports it)
+            return 0.2 / len(_names[kind]) if _pdp else float(_cfg.get(kind + "_threshold_proba", 0.05))
         # ---- distributions of every generation (as recorded) are distributions over the configured names
         for g in range(gens):
             for kind, key in zip(KINDS, ("s_proba", "c_proba", "m_proba")):
                 p = st[key][g]
-                thr = opt._thresholds[kind]
+                thr = thr_of(kind)
                 vals = [float(v) for v in p.values()]
                 z = len(names[kind])
                 S_max = 1 + z * thr + (0 if pdp else opt._K / opt._iters)
@@ -167,7 +178,7 @@ def main(tier: str) -> int:
                 pa, oa = a["after"][kind]
                 ks = names[kind]
                 opsidx = [ks.index(str(o)) for o in ob]
-                thr = opt._thresholds[kind]
+                thr = thr_of(kind)
                 # S4: the documented update rule, recomputed independently
                 fit_exact = all(float(f).is_integer() and abs(f) < 1e9 for f in a["fitness"])
                 exp = None
@@ -180,6 +191,9 @@ def main(tier: str) -> int:
                              {"run": d, "generation": g, "kind": kind, "operators": [str(o) for o in ob][:12], "before": {k_: float(pb[k_]) for k_ in ks},
                               "after": {k_: float(pa[k_]) for k_ in ks}, "rule": {k_: float(e_) for k_, e_ in zip(ks, exp)}},
                              {"optimizer": cn, "clause": "rule", "kind": kind})
+                if pdp and g >= 1 and kind == "selection" and len(a["prev"]) != cfg["pop_size"]:
+                    chk.fail("a PDP optimizer did not record one parent fitness per offspring, so its probabilities cannot follow the documented rule",
+                             {"run": d, "generation": g, "recorded": len(a["prev"]), "pop_size": cfg["pop_size"]}, {"optimizer": cn, "clause": "rule_inputs"})
                 if pdp:
                     if a["prev"]:
                         succ = [bool(x < y) for x, y in zip(a["prev"], a["fitness"])]
